@@ -23,9 +23,9 @@
 From Coq Require Import List Arith Bool ZArith.
 Import ListNotations.
 
-Record ientry := { e_key : nat;     (* id(G) at insertion *)
-                   e_pin : bool;    (* does the entry hold G itself (directly, or through a view's .base) ? *)
-                   e_val : Z }.     (* the converted array *)
+Record ientry := { ie_key : nat;     (* id(G) at insertion *)
+                   ie_pin : bool;    (* does the entry hold G itself (directly, or through a view's .base) ? *)
+                   ie_val : Z }.     (* the converted array *)
 
 Record ist := { heap : list (nat * Z);              (* live objects: address -> contents *)
                 user : list nat;                    (* references held by the caller *)
@@ -50,18 +50,18 @@ Fixpoint hfind (a : nat) (h : list (nat * Z)) : option Z :=
 Definition hdel (a : nat) (h : list (nat * Z)) : list (nat * Z) := filter (fun p => negb (Nat.eqb (fst p) a)) h.
 
 Fixpoint cfind (a : nat) (c : list ientry) : option ientry :=
-  match c with [] => None | e :: t => if Nat.eqb (e_key e) a then Some e else cfind a t end.
+  match c with [] => None | e :: t => if Nat.eqb (ie_key e) a then Some e else cfind a t end.
 
 Definition held (a : nat) (cs : list (option (list nat))) : bool :=
   existsb (fun oc => match oc with Some l => memb a l | None => false end) cs.
-Definition pinned (a : nat) (c : list ientry) : bool := existsb (fun e => e_pin e && Nat.eqb (e_key e) a) c.
+Definition pinned (a : nat) (c : list ientry) : bool := existsb (fun e => ie_pin e && Nat.eqb (ie_key e) a) c.
 Definition rooted (s : ist) (a : nat) : bool := memb a (user s) || held a (circs s) || pinned a (cache s).
 
-Fixpoint set_nth {A} (i : nat) (x : A) (l : list A) : list A :=
+Fixpoint iset_nth {A} (i : nat) (x : A) (l : list A) : list A :=
   match l, i with
   | [], _ => []
   | _ :: t, 0 => x :: t
-  | y :: t, S i' => y :: set_nth i' x t
+  | y :: t, S i' => y :: iset_nth i' x t
   end.
 
 Definition any_live (cs : list (option (list nat))) : bool :=
@@ -88,14 +88,14 @@ Definition istep (conv : Z -> Z) (pin : bool) (s : ist) (e : iev) : option (ist 
       if negb (memb a (user s)) then None
       else match hfind a (heap s), nth_error (circs s) c with
            | Some v, Some (Some l) =>
-               let cs' := if acc then set_nth c (Some (l ++ [a])) (circs s) else circs s in
+               let cs' := if acc then iset_nth c (Some (l ++ [a])) (circs s) else circs s in
                match cfind a (cache s) with
                | Some en =>
                    Some ({| heap := heap s; user := user s; circs := cs'; cache := cache s |},
-                         Some {| o_hit := true; o_ans := e_val en; o_want := conv v |})
+                         Some {| o_hit := true; o_ans := ie_val en; o_want := conv v |})
                | None =>
                    Some ({| heap := heap s; user := user s; circs := cs';
-                            cache := cache s ++ [{| e_key := a; e_pin := pin; e_val := conv v |}] |},
+                            cache := cache s ++ [{| ie_key := a; ie_pin := pin; ie_val := conv v |}] |},
                          Some {| o_hit := false; o_ans := conv v; o_want := conv v |})
                end
            | _, _ => None
@@ -108,7 +108,7 @@ Definition istep (conv : Z -> Z) (pin : bool) (s : ist) (e : iev) : option (ist 
   | IDrop c =>
       match nth_error (circs s) c with
       | Some (Some _) =>
-          let cs' := set_nth c None (circs s) in
+          let cs' := iset_nth c None (circs s) in
           Some ({| heap := heap s; user := user s; circs := cs'; cache := if any_live cs' then cache s else [] |}, None)
       | _ => None
       end
@@ -155,15 +155,15 @@ Definition out_eqb (o : option iout) (p : option (bool * Z)) : bool :=
   | Some x, Some (h, t) => Bool.eqb (o_hit x) h && Z.eqb (o_ans x) t
   | _, _ => false
   end.
-Fixpoint insert_sorted (x : nat) (l : list nat) : list nat :=
-  match l with [] => [x] | y :: t => if Nat.leb x y then x :: l else y :: insert_sorted x t end.
-Definition sort_nat (l : list nat) : list nat := fold_right insert_sorted [] l.
+Fixpoint iins_sorted (x : nat) (l : list nat) : list nat :=
+  match l with [] => [x] | y :: t => if Nat.leb x y then x :: l else y :: iins_sorted x t end.
+Definition isort (l : list nat) : list nat := fold_right iins_sorted [] l.
 
 Definition state_eqb (s : ist) (o : option (list (nat * bool) * list nat)) : bool :=
   match o with
   | None => true
-  | Some (kl, live) => listing_eqb (map (fun en => (e_key en, e_pin en)) (cache s)) kl
-                       && natl_eqb (sort_nat (map fst (heap s))) live
+  | Some (kl, live) => listing_eqb (map (fun en => (ie_key en, ie_pin en)) (cache s)) kl
+                       && natl_eqb (isort (map fst (heap s))) live
   end.
 
 (* the model (pin = true: the code as it stands, conv = identity on content tags) reproduces every observation *)
